@@ -218,18 +218,22 @@ def eval_remover_flow(ctx, R, fname, en_name, en, sugar_kind, expr_remover, is_s
             handed = []
             made = {}
 
-            def expr_stub(args, handed=handed, made=made):
+            contexts = []
+
+            def expr_stub(args, handed=handed, made=made, contexts=contexts):
                 x = args[expr_ix] if expr_ix < len(args) else args[0]
                 handed.append(x)
+                contexts.append(args[-1])
                 out = ("O", "desugared-expression#%d" % len(made), (("carries", x),))
                 made[id(out)] = x
                 if anon:
                     return S("Ok", ("T", (Sink(), Sink(), out)))
                 return S("Ok", out)
 
-            def stmt_stub(args, handed=handed, made=made):
+            def stmt_stub(args, handed=handed, made=made, contexts=contexts):
                 x = args[node_ix] if node_ix < len(args) else args[0]
                 handed.append(x)
+                contexts.append(args[-1])
                 out = ("O", "desugared-statement#%d" % len(made), (("carries", x),))
                 made[id(out)] = x
                 if anon:
@@ -244,6 +248,17 @@ def eval_remover_flow(ctx, R, fname, en_name, en, sugar_kind, expr_remover, is_s
             w.stubs = stubs
             try:
                 res = w.call_fn(fn, argv_for(node))
+                if pos is None and anon and any(i["ty"].replace(" ", "").startswith("&Option<") for i in fn["sig"]["inputs"]):
+                    # the same node inside an indexed context (a loop body): the context is handed down to every child
+                    # (a loop statement itself hands down its own counter instead)
+                    del contexts[:]
+                    lv2 = Leaves()
+                    node2, _b2 = passeval.build_node(en_name, vname, vdef, lv2, True)
+                    ctxv = S("Some", O("enclosing-loop-counter"))
+                    w.call_fn(fn, [ctxv if i["ty"].replace(" ", "").startswith("&Option<") else a_ for i, a_ in zip(fn["sig"]["inputs"], argv_for(node2))])
+                    lost = [c_ for c_ in contexts if c_ is not ctxv and not (vname == "While" and isinstance(c_, tuple) and len(c_) > 2 and c_[1] == "Some")]
+                    if lost:
+                        problems.append("inside a loop body, %d of the %d child(ren) are desugared as if they were outside any loop (the loop counter is not handed down)" % (len(lost), len(contexts)))
             except (Unsupported, passeval.Panic) as u:
                 unsupported = str(u)
                 break
@@ -468,6 +483,9 @@ def rule_init_order(ctx, R):
 def rule_always_desugared(ctx, R):
     """whatever was parsed is desugared before it is handed on: the call is not under any condition on the program"""
     LIBF = "parser/src/lib.rs"
+    import parseval
+
+    parseval.rule(ctx, R, aspects=["desugaring", "no-panic"], floor=False)
     n = 0
     for q, f in fns_in_file(LIBF):
         for c in walk(f["body"]):
@@ -479,11 +497,188 @@ def rule_always_desugared(ctx, R):
     ctx.floor(R, "desugaring call sites", n, 2)
 
 
+def eval_sugar_pipeline(ctx, R):
+    """`remove_syntactic_sugar` by evaluation, the two removers replaced by stand-ins that succeed or fail per
+    definition: three templates x (both stages succeed | the first fails | the second fails) and four functions (clean,
+    containing a tuple, containing an anonymous component, rejected by the tuple remover).  A template is kept exactly
+    when both stages succeed, with the second stage's result as its body; the second stage is given the block
+    [generated counters' declarations, their initialisations, generated component declarations, the desugared
+    statements] in that order; the first stage is given the table the function was given and no loop context; each
+    failure puts its report into the collection once; functions are kept exactly when they are clean.
+    Returns True when decided."""
+    import itertools
+
+    import passeval
+    from finfun import E, NONE, S, Unsupported
+    from passeval import MMap, O, Panic, Sink, V
+
+    try:
+        w = passeval.PassWorld([AST, "program_structure/src/abstract_syntax_tree/expression_impl.rs", "program_structure/src/abstract_syntax_tree/statement_impl.rs", SST, SSR], SSR)
+    except Exception:  # noqa: BLE001
+        return False
+    w.lenient_opaque = True
+    fn = w.free.get("remove_syntactic_sugar")
+    if fn is None:
+        return False
+    tys = [i["ty"].replace(" ", "") for i in fn["sig"]["inputs"]]
+    if len(tys) != 4 or not tys[3].startswith("&mut"):
+        return False
+    bad = {}
+    n = 0
+    names = ["A", "B", "C"]
+    try:
+        for outcome in itertools.product(("ok", "fail1", "fail2"), repeat=3):
+            bodies, metas, stmts0, decls, rep1, rep2, finals, copies, built = {}, {}, {}, {}, {}, {}, {}, {}, {}
+            stage1_args, stage2_args = [], []
+            tpl = MMap()
+            for i, nm in enumerate(names):
+                body = ("O", "body-of-" + nm, (("clone", ("PY", (lambda nm=nm: bodies[nm]))),))
+                bodies[nm] = body
+                metas[nm] = ("O", "meta-of-" + nm, (("clone", ("PY", (lambda nm=nm: metas[nm]))),))
+                stmts0[nm] = [O("statement-%s.0" % nm), O("statement-%s.1" % nm)]
+                decls[nm] = {
+                    "comp": V("Statement", "Declaration", meta=O("m"), xtype=E("VariableType", "Component"), name="c_" + nm, dimensions=("L", ()), is_constant=False),
+                    "anon": V("Statement", "Declaration", meta=O("m"), xtype=E("VariableType", "AnonymousComponent"), name="a_" + nm, dimensions=("L", ()), is_constant=False),
+                    "var": V("Statement", "Declaration", meta=O("m"), xtype=E("VariableType", "Var"), name="i_" + nm, dimensions=("L", ()), is_constant=True),
+                    "sub": V("Statement", "Substitution", meta=O("m"), var="i_" + nm, access=("L", ()), op=O("op"), rhe=O("zero")),
+                }
+                rep1[nm], rep2[nm], finals[nm] = O("stage-1-error-" + nm), O("stage-2-error-" + nm), O("final-body-" + nm)
+
+                def clone_template(nm=nm):
+                    cell = {}
+                    cp = ("O", "copy-of-template-" + nm, (("set:get_mut_body", ("PY", lambda v, cell=cell: cell.__setitem__("body", v))), ("get_body", ("PY", lambda cell=cell: cell.get("body")))))
+                    copies.setdefault(nm, []).append((cp, cell))
+                    return cp
+
+                tpl.pairs.append([nm, ("O", "template-" + nm, (("get_body", body), ("clone", ("PY", clone_template))))])
+            flib = O("file_library")
+
+            def stage1(args, outcome=outcome):
+                nm = [k_ for k_, b_ in bodies.items() if b_ is args[2]]
+                if not nm:
+                    raise Unsupported("the first stage is given %r" % (args[2],))
+                nm = nm[0]
+                stage1_args.append((nm, args))
+                if outcome[names.index(nm)] == "fail1":
+                    return S("Err", rep1[nm])
+                st = Sink()
+                st.items = list(stmts0[nm])
+                ds = Sink()
+                ds.items = [decls[nm]["comp"], decls[nm]["var"], decls[nm]["sub"], decls[nm]["anon"]]
+                return S("Ok", ("T", (V("Statement", "Block", meta=metas[nm], stmts=st), ds)))
+
+            def stage2(args, outcome=outcome):
+                a = args[0]
+                if isinstance(a, tuple) and len(a) > 3 and a[0] == "V" and a[2] == "Block":
+                    flat = []
+
+                    def ids(x):
+                        for y in (x.items if isinstance(x, Sink) else (x[1] if isinstance(x, tuple) and x and x[0] == "L" else [])):
+                            flat.append(y)
+
+                    ids(a[3].get("stmts"))
+                    nm = None
+                    for k_ in names:
+                        if any(y is stmts0[k_][0] for y in flat) or a[3].get("meta") is metas[k_]:
+                            nm = k_
+                    if nm is None:
+                        raise Unsupported("the second stage is given a block of unknown origin")
+                    stage2_args.append((nm, flat))
+                    if outcome[names.index(nm)] == "fail2":
+                        return S("Err", rep2[nm])
+                    return S("Ok", finals[nm])
+                # a function body
+                fk = [k_ for k_, b_ in fbodies.items() if b_ is a]
+                if not fk:
+                    raise Unsupported("the second stage is given %r" % (a,))
+                return S("Err", frep["bad"]) if fk[0] == "bad" else S("Ok", O("checked"))
+
+            fbodies, frep = {}, {"bad": O("function-error-bad")}
+            fns_ = MMap()
+            for kind in ("clean", "tuple", "anon", "bad"):
+                fb = ("O", "function-body-" + kind, (("contains_tuple", ("PY", lambda r_, kind=kind: kind == "tuple")), ("contains_anonymous_component", ("PY", lambda r_, kind=kind: kind == "anon")), ("clone", ("PY", (lambda kind=kind: fbodies[kind])))))
+                fbodies[kind] = fb
+                fns_.pairs.append([kind, ("O", "function-" + kind, (("get_body", fb), ("clone", ("PY", (lambda kind=kind: ("O", "copy-of-function-" + kind, ()))))))])
+            w.stubs = {
+                "remove_anonymous_from_statement": stage1, "remove_tuples_from_statement": stage2,
+                "build_initialization_block": lambda a: V("Statement", "InitializationBlock", meta=a[0], xtype=a[1], initializations=a[2]),
+                "build_block": lambda a: V("Statement", "Block", meta=a[0], stmts=a[1]),
+            }
+            reports = Sink()
+            res = w.call_fn(fn, [tpl, fns_, flib, reports])
+            n += 1
+            tag = "templates A, B, C: %s" % ", ".join(outcome)
+            if not (isinstance(res, tuple) and res[0] == "T" and len(res[1]) == 2 and isinstance(res[1][0], MMap) and isinstance(res[1][1], MMap)):
+                raise Unsupported("the result is %r" % (res,))
+            newt, newf = res[1]
+            for i, nm in enumerate(names):
+                kept = newt.find(nm)
+                if (kept is not None) != (outcome[i] == "ok"):
+                    bad.setdefault("kept", "%s: template %s is %s" % (tag, nm, "kept" if kept is not None else "dropped"))
+                if kept is not None:
+                    cp = [c_ for c_ in copies.get(nm, []) if c_[0] is kept[1]]
+                    if not cp or cp[0][1].get("body") is not finals[nm]:
+                        bad.setdefault("body", "%s: the body stored for template %s is not the result of the second stage" % (tag, nm))
+                c1 = sum(1 for y in reports.items if y is rep1[nm])
+                c2 = sum(1 for y in reports.items if y is rep2[nm])
+                if c1 != (1 if outcome[i] == "fail1" else 0) or c2 != (1 if outcome[i] == "fail2" else 0):
+                    bad.setdefault("reports", "%s: the errors of template %s are in the collection %d and %d time(s)" % (tag, nm, c1, c2))
+                calls1 = [a_ for k_, a_ in stage1_args if k_ == nm]
+                if len(calls1) != 1:
+                    bad.setdefault("stages", "%s: the first stage runs %d time(s) on template %s" % (tag, len(calls1), nm))
+                elif calls1[0][0] is not tpl or calls1[0][3] != NONE:
+                    bad.setdefault("table", "%s: the first stage is given %s as template table and %s as loop context" % (tag, "a copy" if isinstance(calls1[0][0], MMap) else "something else", "none" if calls1[0][3] == NONE else "one"))
+                calls2 = [f_ for k_, f_ in stage2_args if k_ == nm]
+                if (len(calls2) == 1) != (outcome[i] != "fail1"):
+                    bad.setdefault("stages", "%s: the second stage runs %d time(s) on template %s" % (tag, len(calls2), nm))
+                elif calls2:
+                    flat = calls2[0]
+                    kinds = []
+                    for y in flat:
+                        if isinstance(y, tuple) and len(y) > 3 and y[0] == "V" and y[2] == "InitializationBlock":
+                            inner = y[3].get("initializations")
+                            inner = list(inner.items) if isinstance(inner, Sink) else (list(inner[1]) if isinstance(inner, tuple) and inner and inner[0] == "L" else [])
+                            kinds.append(("init", y[3].get("xtype")[2] if isinstance(y[3].get("xtype"), tuple) else None, tuple("comp" if z is decls[nm]["comp"] else "anon" if z is decls[nm]["anon"] else "var" if z is decls[nm]["var"] else "?" for z in inner)))
+                        elif y is decls[nm]["sub"]:
+                            kinds.append(("sub",))
+                        elif any(y is z for z in stmts0[nm]):
+                            kinds.append(("stmt", [k3 for k3, z in enumerate(stmts0[nm]) if z is y][0]))
+                        else:
+                            kinds.append(("?",))
+                    want = [("init", "Var", ("var",)), ("sub",), ("init", "Component", ("comp", "anon")), ("stmt", 0), ("stmt", 1)]
+                    if kinds != want:
+                        bad.setdefault("order", "%s: the block given to the second stage for template %s is %s" % (tag, nm, kinds))
+            for kind in ("clean", "tuple", "anon", "bad"):
+                if (newf.find(kind) is not None) != (kind == "clean"):
+                    bad.setdefault("functions", "%s: the function %s is %s" % (tag, {"clean": "without sugar", "tuple": "containing a tuple", "anon": "containing an anonymous component", "bad": "rejected by the tuple remover"}[kind], "kept" if newf.find(kind) is not None else "dropped"))
+            if sum(1 for y in reports.items if y is frep["bad"]) != 1:
+                bad.setdefault("functions", "%s: the error of the rejected function is in the collection %d time(s)" % (tag, sum(1 for y in reports.items if y is frep["bad"])))
+    except Unsupported as u:
+        ctx.note("remove_syntactic_sugar is outside the evaluator's subset (%s): shape obligations apply" % u)
+        w.stubs = {}
+        return False
+    except Panic as p_:
+        bad.setdefault("kept", "panics (%s)" % p_)
+    w.stubs = {}
+    ctx.floor(R, "desugaring pipeline worlds evaluated", n, 27)
+    st = site(SSR, fn)
+    ctx.check(R, "remove_syntactic_sugar/templates/both-stages", "stages" not in bad, bad.get("stages", "each template goes through the first stage once and, if that succeeds, through the second once"), st)
+    ctx.check(R, "remove_syntactic_sugar/templates/every-template", "kept" not in bad, bad.get("kept", "a template is kept exactly when both stages succeed, whatever happened to the others"), st)
+    ctx.check(R, "remove_syntactic_sugar/templates/resolved-against-the-given-table", "table" not in bad, bad.get("table", "the first stage gets the template table handed in, and no loop context"), st)
+    ctx.check(R, "remove_syntactic_sugar/templates/result-of-last-stage-is-stored", "body" not in bad, bad.get("body", "the stored body is the second stage's result"), st)
+    ctx.check(R, "remove_syntactic_sugar/counters-initialised-before-component-declarations", "order" not in bad, bad.get("order", "counters' declarations, their initialisations, component declarations, then the desugared statements"), st)
+    ctx.check(R, "remove_syntactic_sugar/templates/errors-reported-once", "reports" not in bad, bad.get("reports", "the error of a failed stage is in the collection once"), st)
+    ctx.check(R, "remove_syntactic_sugar/functions/only-clean-functions-kept", "functions" not in bad, bad.get("functions", "a function with a tuple, an anonymous component or a statement the tuple remover rejects is dropped, with its error"), st)
+    return True
+
+
 def rule_elimination(ctx):
     R = "C18.2"
     ctx.rule(R, "the node kinds the IR lifting panics on and the CFG lifting does not handle itself are unconstructible in the output of the template pipeline (last remover stage) and rejected by the function filter; the anonymous-component remover runs before the tuple remover; every parsed program and library is desugared")
     rule_always_desugared(ctx, R)
-    rule_init_order(ctx, R)
+    decided_pipeline = eval_sugar_pipeline(ctx, R)
+    if not decided_pipeline:
+        rule_init_order(ctx, R)
     ps = panicking_variants(IRL, r"ast::Statement")
     pe = panicking_variants(IRL, r"ast::Expression")
     ctx.table("lifting panics on", {"statements": sorted(ps), "expressions": sorted(pe)})
@@ -513,6 +708,8 @@ def rule_elimination(ctx):
         ms = [m for m in walk(rt["body"]) if m["k"] == "Match"]
         arm = [a for a in ms[0]["arms"] if v in [last(p) for p in pat_paths(a["pat"])]] if ms else []
         ctx.check(R, "templates/%s/arm-rewrites-or-rejects" % v, len(arm) == 1, "no arm for %s" % v, site(SSR, rt))
+    if decided_pipeline:
+        return
     # stage order in remove_syntactic_sugar: anonymous first, then tuples; both results used
     top = find_fn(SSR, "remove_syntactic_sugar")
     if top is None:
@@ -535,6 +732,27 @@ def rule_elimination(ctx):
                 if not any(("Err(" in f_ and ("remove_anonymous_from_statement(" in f_ or "remove_tuples_from_statement(" in f_)) for f_ in fx):
                     skips.append("%s under %s" % (x["k"], fx[:2]))
         ctx.check(R, "remove_syntactic_sugar/templates/every-template", not cs_ and not skips, "the first stage runs under %s; early exits of the template loop: %s" % (cs_, skips), site(SSR, an[0]))
+    if ok:
+        # anonymous components are resolved against the table the function was given, not against a copy that changes
+        # while the (hash-ordered) template loop runs
+        import sgrep as _sgp
+
+        pv_top = _sgp.params(top)
+        a0 = strip(an[0]["args"][0]) if an[0]["args"] else None
+        lets_top = _sgp.lets(top["body"])
+
+        def peel(x):
+            while x is not None and x["k"] in ("Ref", "Paren", "Group"):
+                x = x["e"]
+            return x
+
+        a0 = peel(an[0]["args"][0]) if an[0]["args"] else None
+        for _ in range(4):
+            if a0 is not None and a0["k"] == "Path" and a0["path"] in lets_top and peel(lets_top[a0["path"]])["k"] == "Path":
+                a0 = peel(lets_top[a0["path"]])  # another name for the same table (a copy is not: it can be changed)
+            else:
+                break
+        ctx.check(R, "remove_syntactic_sugar/templates/resolved-against-the-given-table", a0 is not None and a0["k"] == "Path" and bool(pv_top) and a0["path"] == pv_top[0], "templates are looked up in `%s`; the table handed in is `%s`: a table that shrinks or grows during the loop makes the outcome depend on the iteration order of the template map" % (render(a0) if a0 else "?", pv_top[0] if pv_top else "?"), site(SSR, an[0]))
     if ok:
         t_in = [c for c in tu if any(x is c for x in walk(tloop[0]))][0]
         ctx.check(R, "remove_syntactic_sugar/templates/anonymous-before-tuples", an[0]["line"] < t_in["line"], "the tuple remover assumes anonymous components are gone", site(SSR, top))
@@ -997,7 +1215,7 @@ def eval_anonymous(ctx, R):
     }
     DECL = ["c", "a", "b"]
     OPS = {"<--": E("AssignOp", "AssignSignal"), "<==": E("AssignOp", "AssignConstraintSignal"), "=": E("AssignOp", "AssignVar")}
-    tdata = ("O", "template-data", (("get_declaration_inputs", L(("T", (nm, 0)) for nm in DECL)), ("get_declaration_outputs", L([("T", ("out", 0))]))))
+    tdata = ("O", "template-data", (("get_declaration_inputs", L(("T", (nm, 0)) for nm in DECL)), ("get_declaration_outputs", L([("T", ("z_out", 0)), ("T", ("a_out", 0))]))))
     flib = ("O", "file_library", (("get_line", ("PY", lambda *a: S("Some", 7))),))
     bad = {}
     n = 0
@@ -1057,6 +1275,17 @@ def eval_anonymous(ctx, R):
                     continue
                 fresh = subs[0][3]["var"]
                 ins = subs[1:]
+                # the value of the call: the outputs in declaration order
+                oute = res[2][0][1][2]
+                outs = oute[3].get("values") if isinstance(oute, tuple) and len(oute) > 3 and oute[0] == "V" and oute[2] == "Tuple" else None
+                outs = list(outs.items) if isinstance(outs, Sink) else (list(outs[1]) if isinstance(outs, tuple) and outs and outs[0] == "L" else None)
+                onames = []
+                for o_ in outs or []:
+                    acc_ = o_[3].get("access") if isinstance(o_, tuple) and len(o_) > 3 and o_[0] == "V" else None
+                    acc_ = list(acc_.items) if isinstance(acc_, Sink) else (list(acc_[1]) if isinstance(acc_, tuple) and acc_ and acc_[0] == "L" else [])
+                    onames.append(acc_[-1][2][0] if acc_ and isinstance(acc_[-1], tuple) and acc_[-1][1] == "ComponentAccess" else None)
+                if onames != ["z_out", "a_out"]:
+                    bad.setdefault("outputs", "%s: the call evaluates to the outputs %s, declared are z_out, a_out in this order" % (wtag, onames if outs is not None else "(not a tuple)"))
                 bound = {nm_: (sigs[k], OPS[o_]) for k, (o_, nm_) in enumerate(names)} if names is not None else {nm_: (sigs[k], OPS["<=="]) for k, nm_ in enumerate(DECL)}
                 if len(ins) != len(DECL):
                     bad.setdefault("binding", "%s: %d input assignment(s) for %d declared inputs" % (wtag, len(ins), len(DECL)))
@@ -1078,13 +1307,44 @@ def eval_anonymous(ctx, R):
                         bad.setdefault("port", "%s: the access path of port `%s` is %r" % (wtag, nm_, acc))
     except (Unsupported, passeval.Panic) as u:
         ctx.note("remove_anonymous_from_expression/AnonymousComponent (binding) is outside the evaluator's subset (%s): shape obligations apply" % u)
-        return False
-    finally:
         w.stubs = {}
+        return False
+    # a call in statement position, `T(p)(a);`, as the grammar's builder writes it, through both stages: accepted exactly
+    # when the template has no outputs (outputs of an anonymous component must be consumed)
+    SB = "program_structure/src/abstract_syntax_tree/statement_builders.rs"
+    bfn = find_fn(SB, "build_anonymous_component_statement")
+    rts = w.free.get("remove_tuples_from_statement")
+    ras = w.free.get("remove_anonymous_from_statement")
+    stmt_pos = None
+    if bfn is not None and rts is not None and ras is not None:
+        w.stubs["build_block"] = lambda a: V("Statement", "Block", meta=a[0], stmts=a[1])
+        try:
+            outcomes = {}
+            for nout in (0, 1, 2):
+                td = ("O", "template-data", (("get_declaration_inputs", L([("T", ("in", 0))])), ("get_declaration_outputs", L(("T", ("out%d" % k, 0)) for k in range(nout)))))
+                meta = ("O", "call-meta", (("start", 1234), ("get_file_id", O("file-id")), ("clone", ("PY", lambda: mh2[0]))))
+                mh2 = [meta]
+                call = V("Expression", "AnonymousComponent", meta=meta, id="T", is_parallel=False, params=L([]), signals=L(leafs(1)), names=NONE)
+                st0 = w.call_fn(bfn, [meta, call])
+                r1 = w.call_fn(ras, [MMap([["T", td]]), flib, st0, NONE])
+                if not (isinstance(r1, tuple) and len(r1) > 2 and r1[1] == "Ok"):
+                    outcomes[nout] = "rejected by the first stage"
+                    continue
+                r2 = w.call_fn(rts, [r1[2][0][1][0]])
+                outcomes[nout] = "accepted" if isinstance(r2, tuple) and len(r2) > 2 and r2[1] == "Ok" else "rejected"
+            stmt_pos = outcomes
+        except (Unsupported, passeval.Panic) as u:
+            ctx.note("statement-position anonymous call: outside the evaluator's subset (%s)" % u)
+    w.stubs = {}
+    if stmt_pos is not None:
+        okp_ = stmt_pos.get(0) == "accepted" and stmt_pos.get(1, "").startswith("rejected") and stmt_pos.get(2, "").startswith("rejected")
+        ctx.check(R, "anonymous/statement-position-call", okp_, "`T(p)(a);` for a template with 0 / 1 / 2 outputs is %s / %s / %s; expected accepted / rejected / rejected (it stands for `() <== T(p)(a)`: unused outputs are an error, no outputs is fine)" % (stmt_pos.get(0), stmt_pos.get(1), stmt_pos.get(2)), site(SSR, fn))
     ctx.floor(R, "anonymous component call worlds evaluated", n, 18)
     ctx.check(R, "anonymous/instantiation-first", "instantiation" not in bad, bad.get("instantiation", "the component is instantiated before any of its inputs is assigned"), site(SSR, fn))
     ctx.check(R, "anonymous/input-assigned-to-its-port", "port" not in bad and "binding" not in bad, bad.get("port") or bad.get("binding") or "one assignment per declared input, in declaration order, to that input's port", site(SSR, fn))
     ctx.check(R, "anonymous/named-input/value-and-operator-by-the-same-position", "value" not in bad and "operator" not in bad, bad.get("value") or bad.get("operator") or "each port gets the value and the operator written for its own name; positional inputs get `<==`", site(SSR, fn))
+    ctx.check(R, "anonymous/outputs-in-declaration-order", "outputs" not in bad, bad.get("outputs", "the value of the call is the tuple of the component's outputs in declaration order"), site(SSR, fn))
+    ctx.check(R, "anonymous/inputs-in-declaration-order", "binding" not in bad and "port" not in bad, bad.get("binding") or bad.get("port") or "inputs are assigned in declaration order (c, a, b), not in name order", site(SSR, fn))
     ctx.check(R, "anonymous/arity-checked", "errors" not in bad, bad.get("errors", "a missing name, a wrong number of signals and an unknown template are rejected"), site(SSR, fn))
     return True
 
@@ -1121,7 +1381,8 @@ def rule_binding(ctx):
                     return True
         return False
 
-    for nm in ("inputs", "outputs"):
+    decided_anon = eval_anonymous(ctx, R)
+    for nm in (("inputs", "outputs") if not decided_anon else ()):
         vs = [v_ for v_ in le.values() if strip(v_)["k"] == "MethodCall" and strip(v_)["method"] == "get_declaration_" + nm]
         okd = len(vs) == 1 and is_template_lookup(strip(vs[0])["recv"])
         ctx.check(R, "anonymous/%s-in-declaration-order" % nm, okd, "%s = %s" % (nm, render(vs[0]) if vs else "?"), site(SSR, fn))
@@ -1146,8 +1407,6 @@ def rule_binding(ctx):
         parts_ = [render(strip(x)).replace(" ", "") for x in summands(nm_)] if nm_ is not None else []
         okn = okn and any(x in ("meta.start.to_string()", "meta.start", "meta.get_start().to_string()", "meta.location.start.to_string()") for x in parts_)
     ctx.check(R, "anonymous/fresh-name-contains-the-call-offset", okn, "two anonymous components on one line must not share a name (shadowing, merged definitions)", site(SSR, fn))
-    decided_anon = eval_anonymous(ctx, R)
-
     class _Decided:
         """the obligations below are the shape form of what the evaluation has decided"""
 
